@@ -414,7 +414,8 @@ type c19World struct {
 	left    map[int]bool
 }
 
-var c19Kinds = [][]string{{"a"}, {"a", "b"}, {"b"}}
+// kind "ab" has kind "a" as a prefix; n2 registers no kind at all (it can still host cluster-spawned actors)
+var c19Kinds = [][]string{{"a"}, {"a", "ab"}, {}}
 
 func newC19World(n int) *c19World {
 	w := &c19World{members: map[int]bool{}, active: map[string]string{}, left: map[int]bool{}}
@@ -528,7 +529,7 @@ func (w *c19World) capable(kind string) []*c19Node {
 // checkViews: at quiescence every member resolves every active id to the same PID and lists it
 // once under its kind; nothing else is listed; the hosting registry has (only) the active actors.
 func (w *c19World) checkViews() {
-	ids := []string{"a/1", "a/2", "a/3", "b/1", "z/1"}
+	ids := []string{"a/1", "a/2", "a/3", "ab/1", "z/1"}
 	for _, n := range w.nodes {
 		if !w.members[n.idx] {
 			continue
@@ -545,7 +546,7 @@ func (w *c19World) checkViews() {
 				w.bad = append(w.bad, V("activation/stale-entry-on-member", "history %v: %s still resolves %s to %s", w.hist, n.id, id, pidStr(got)))
 			}
 		}
-		for _, kind := range []string{"a", "b", "z"} {
+		for _, kind := range []string{"a", "ab", "z"} {
 			got := map[string]int{}
 			for _, p := range n.c.GetActiveByKind(kind) {
 				if p != nil {
@@ -634,7 +635,7 @@ func (w *c19World) enabledOps() []c19Op {
 			kind, id string
 			sel      int // -1 first capable (smallest member id), else node index
 		}
-		acts := []act{{"a", "1", -1}, {"a", "2", -1}, {"b", "1", -1}, {"z", "1", -1}}
+		acts := []act{{"a", "1", -1}, {"a", "2", -1}, {"ab", "1", -1}, {"z", "1", -1}}
 		for _, o := range w.nodes {
 			if o.idx != n.idx {
 				acts = append(acts, act{"a", "1", o.idx})
@@ -701,7 +702,7 @@ func (w *c19World) enabledOps() []c19Op {
 			}})
 		}
 		// deactivate what this member can resolve
-		for _, key := range []string{"a/1", "b/1"} {
+		for _, key := range []string{"a/1", "ab/1"} {
 			key := key
 			if _, ok := w.active[key]; !ok {
 				continue
@@ -726,7 +727,7 @@ func (w *c19World) enabledOps() []c19Op {
 func (w *c19World) registrySnapshot() string {
 	var parts []string
 	for _, n := range w.nodes {
-		for _, id := range []string{"a/1", "a/2", "a/3", "b/1", "z/1"} {
+		for _, id := range []string{"a/1", "a/2", "a/3", "ab/1", "z/1"} {
 			p := strings.SplitN(id, "/", 2)
 			if n.e.Registry.GetPID(p[0], p[1]) != nil {
 				parts = append(parts, n.id+":"+id)
@@ -736,7 +737,10 @@ func (w *c19World) registrySnapshot() string {
 	return strings.Join(parts, ",")
 }
 
-func engActivations(nnodes, depth int) vsched.Instance {
+func engActivations(nnodes, depth int) vsched.Instance { return engActivationsFrom(nnodes, depth, false) }
+
+// engActivationsFrom: pre starts from the non-initial state in which a/1 is already active on n0.
+func engActivationsFrom(nnodes, depth int, pre bool) vsched.Instance {
 	var w *c19World
 	var states []string
 	body := func() {
@@ -747,6 +751,12 @@ func engActivations(nnodes, depth int) vsched.Instance {
 		// node 0 forms the cluster
 		w.members[0] = true
 		w.run(func() { w.snapshot([]*c19Node{w.nodes[0]}) })
+		if pre {
+			w.hist = append(w.hist, "[a/1 active on n0]")
+			w.active["a/1"] = w.nodes[0].addr
+			w.run(func() { w.nodes[0].c.Activate("a", cluster.NewActivationConfig().WithID("1")) })
+			w.checkViews()
+		}
 		n := 1 + vsched.Choose(depth)
 		for step := 0; step < n; step++ {
 			ops := w.enabledOps()
@@ -791,10 +801,13 @@ func setStrInt(m map[int]bool) string {
 
 func init() {
 	Register(&Job{Name: "C19/cluster/two-nodes-3-ops", Prop: "C19", Bound: 0, BoundT: 1, Budget: 50, BudgetT: 600, Shards: 7,
-		Desc: "2 real engines with real cluster agents (stub providers, outbound messages captured in a shared pool and delivered in every order); node n0{a} forms the cluster, then all histories of <=3 enabled operations out of join/leave/activate(kind a|b|z, id 1|2, first capable or a fixed member)/deactivate/cluster spawn from either node; reference model = membership + global id->host map",
+		Desc: "2 real engines with real cluster agents (stub providers, outbound messages captured in a shared pool and delivered in every order); node n0{a} forms the cluster, then all histories of <=3 enabled operations out of join/leave/activate(kind a|ab|z, id 1|2, first capable or a fixed member)/deactivate/cluster spawn from either node; reference model = membership + global id->host map",
 		Make: func() vsched.Instance { return engActivations(2, 3) }})
+	Register(&Job{Name: "C19/cluster/three-nodes-from-activated", Prop: "C19", Bound: 0, BoundT: 1, Budget: 50, BudgetT: 900, Shards: 8,
+		Desc: "3 nodes n0{a} n1{a,ab} n2{} (no kinds), starting from the state in which a/1 is already active on n0 (non-initial start): all histories of <=3 enabled operations (two successive joins, deactivate/leave between them, a kind-less member that cluster-spawns and leaves, ...), all notification arrival orders",
+		Make: func() vsched.Instance { return engActivationsFrom(3, 3, true) }})
 	Register(&Job{Name: "C19/cluster/three-nodes-3-ops", Prop: "C19", Tier: "thorough", Bound: 0, BoundT: 0, Budget: 50, BudgetT: 1200, Shards: 8,
-		Desc: "3 nodes n0{a} n1{a,b} n2{b}, all histories of <=3 enabled operations, all notification arrival orders",
+		Desc: "3 nodes n0{a} n1{a,ab} n2{}, all histories of <=3 enabled operations, all notification arrival orders",
 		Make: func() vsched.Instance { return engActivations(3, 3) }})
 	Register(&Job{Name: "C19/cluster/two-nodes-4-ops", Prop: "C19", Tier: "thorough", Bound: 0, BoundT: 0, Budget: 50, BudgetT: 1200, Shards: 7,
 		Desc: "2 nodes, all histories of <=4 enabled operations, all notification arrival orders",
